@@ -20,6 +20,9 @@ def run(ctx):
         if len(sc["blocks"]) == 1:
             sc["blocks"].append({"kind": "seq", "actions": [{"a": "wait", "secs": 1}]})
         comp_executor.one(ctx, "C16", sc, ctx.rng.randrange(1 << 30), component="executor.large")
+    # oversized child contexts INSIDE branches that are re-submitted in-process (re-visited in the invocation that recorded them)
+    for i in range(ctx.scale(150, 3000)):
+        comp_executor.one(ctx, "C16", comp_executor.gen_resubmit_rich(ctx.rng), ctx.rng.randrange(1 << 30), component="executor.resubmit")
 
 
 def search(ctx):
